@@ -146,6 +146,28 @@ pub fn run(ctx: &Ctx, rep: &mut Report) {
             cli.push((format!("{}\noutput fun = {}", prelude.join("\n"), fsrc), vec![1.0]));
         }
     }
+    // known-finding probes (exact inputs): an assignment nested inside the body shadows a captured
+    // name at run time, but the emitter keeps inlining the captured value after it
+    for (src, args) in [
+        ("x = 5\nfun = () => [x = 1, x]\nfun", vec![]),
+        ("x = 5\nfun = (y) => [x = y, x + 1]\nfun", vec![10.0]),
+        ("x = 5\nfun = () => do {\n  if true then x = 1 else 2\n  return x\n}\nfun", vec![]),
+    ] {
+        let stmts = match statements(src) { Ok(s) => s, Err(_) => continue };
+        let sess = run_real(&stmts, None, src);
+        let f = match sess.raw.last() { Some(Ok(Ok(v @ Value::Lambda(_)))) => *v, _ => continue };
+        rep.case(src, true);
+        if let Ok(Ok(sv)) = guarded(|| SerializableValue::from_value(&f, &sess.heap.borrow())) {
+            if let Ok((h2, f2, text)) = reload(&sv) {
+                let a = apply(&sess.heap, f, &args);
+                let b = apply(&h2, f2, &args);
+                if a != b {
+                    rep.finding("oracle", "reloaded-function-differs", src, &format!("original={} reloaded={} emitted={}", short(&a), short(&b), short(&text)), "c05.nested-assignment-shadows-captured");
+                }
+            }
+        }
+    }
+
     // blots a | blots b
     for (k, (prog, args)) in cli.iter().enumerate() {
         use std::io::Write;
